@@ -900,6 +900,37 @@ theorem inv_stepGiveup {w : World} (h : Inv w) : Inv (stepGiveup w) := by
       · exact h
     · exact h
 
+theorem inv_stepExpire {w : World} (h : Inv w) : Inv (stepExpire w) := by
+  unfold stepExpire
+  split
+  · exact h
+  · rename_i p hp
+    have hP := h.proc p hp
+    have hf := observe_fields w p
+    have hPo := pinv_observe hP
+    split
+    · rename_i hh l t hsu
+      apply inv_settle
+      by_cases hb : p.boot = .up
+      · have hb' : (observe w p).boot = .up := by rw [hf.1]; exact hb
+        obtain ⟨hst, hs⟩ := hPo.up hb'
+        rw [hf.2.1, hsu] at hs
+        obtain ⟨hg, hr, hn, ho⟩ := hs
+        refine h.setProc _ _ (PInv.of_up hb' ⟨hst, ?_⟩)
+        show StartupInv w _ (.lwTmp l)
+        exact ⟨hg.1, hg.2.1, by show (observe w p).recvd ≤ l.sh; omega, hn, ho⟩
+      · exact h.setProc _ _ (hPo.set_su (by rw [hf.1]; exact hb) _)
+    · rename_i hsu
+      split
+      · rename_i hs t ho
+        apply inv_settle
+        have ho' : (observe w p).ongoing = .fsleep hs t := by rw [hf.2.2.1]; exact ho
+        obtain ⟨hb, hsu', hst, hl⟩ := hPo.loop_of_ongoing (by rw [ho']; simp)
+        exact h.setProc _ _ (PInv.of_up hb ⟨hst, StartupInv.of_loop hsu'
+          (hl.step (Grows.refl w) (.wPrepTmp hs) (by rw [ho']; rfl) (by rw [ho']; simp) trivial)⟩)
+      · exact h
+    · exact h
+
 theorem inv_stepWait {w : World} (h : Inv w) : Inv (stepWait w) := by
   unfold stepWait
   split
@@ -966,6 +997,7 @@ theorem inv_step {w : World} (h : Inv w) (a : Action) (hb : a.benign = true) : I
   | bcast o => exact inv_stepBcast h o
   | gettx m => exact inv_stepGetTx h m
   | giveup => exact inv_stepGiveup h
+  | expire => exact inv_stepExpire h
   | wait => exact inv_stepWait h
   | poll =>
     simp only [step]
